@@ -147,41 +147,28 @@ Fixpoint merge_iter (a : list kv) : list kv -> list kv :=
 Definition esc (s : bytes) : bytes :=
   flat_map (fun c => if (c =? 61) || (c =? 44) || (c =? 92) then [92; c] else [c]) s.
 
-Fixpoint dec_digits (fuel : nat) (n : N) (acc : bytes) : bytes :=
-  match fuel with
-  | O => acc
-  | S f => let acc' := (48 + n mod 10) :: acc in
-           if n <? 10 then acc' else dec_digits f (n / 10) acc'
-  end.
-Definition dec (n : N) : bytes := dec_digits 25 n [].
-Definition TWO64 : N := 18446744073709551616.
-(** strconv.FormatInt of the int64 whose pattern is [n]. *)
-Definition dec_i64 (n : N) : bytes := if n <? TWO63 then dec n else 45 :: dec (TWO64 - n).
-
-Fixpoint join (sep : bytes) (l : list bytes) : bytes :=
-  match l with
-  | [] => []
-  | [x] => x
-  | x :: r => x ++ sep ++ join sep r
-  end.
-
-Definition emit_bool (b : bool) : bytes := if b then str "true" else str "false".
-
-(** Value.Emit for the types whose text form does not involve float formatting or JSON
-    string escaping; [None] = taken from the implementation (oracle) by the caller. *)
+(** Value.Emit for the types whose text form does not involve float formatting; string slices are
+    modelled for ASCII elements (encoding/json's escaping of non-ASCII runes is not modelled);
+    [None] = taken from the implementation (oracle) by the caller.  The text forms themselves
+    (decimal numerals, "[true false]", JSON arrays, JSON string escaping) are in Types.v. *)
 Definition emit_simple (v : value) : option bytes :=
   match v with
   | VInvalid => Some (str "unknown")
-  | VBool b => Some (emit_bool b)
+  | VBool b => Some (text_bool b)
   | VInt n => Some (dec_i64 n)
   | VStr s => Some s
-  | VBools l => Some ([91] ++ join [32] (map emit_bool l) ++ [93])
-  | VInts l => Some ([91] ++ join [44] (map dec_i64 l) ++ [93])
+  | VBools l => Some (text_bools l)
+  | VInts l => Some (text_ints l)
+  | VStrs l => if forallb (forallb (fun c => c <? 128)) l then Some (text_strs l) else None
   | _ => None
   end.
 
-(** Encode over the iteration of a set; [emit] is Value.Emit (only consulted for non-string values). *)
+(** Encode over the iteration of a set; [emit] is Value.Emit as observed (only consulted where [emit_simple] gives no text). *)
 Definition encode_kv (emit : value -> bytes) (x : kv) : bytes :=
-  esc (fst x) ++ [61] ++ match snd x with VStr s => esc s | v => emit v end.
+  esc (fst x) ++ [61] ++
+  match snd x with
+  | VStr s => esc s
+  | v => match emit_simple v with Some t => t | None => emit v end
+  end.
 Definition encode (emit : value -> bytes) (s : list kv) : bytes :=
   join [44] (map (encode_kv emit) s).
